@@ -143,6 +143,14 @@ C07_ASSUME = ["the emitted method bodies are read back through the statement for
 PYG = "py_generated"
 
 PARTS = {
+    "C08": [
+        (G, "gosym_part", dict(name="c08_python_package", entry="internal/zzverif.C08PythonPackage",
+                               required_sites=("generation-does-not-panic", "generation-succeeds", "imported-module-was-generated", "ndjson-written-iff-enabled"),
+                               assumptions=["iocommon.CopyEmbeddedStaticFiles replaced by a no-op under gosym (embedded runtime files are not modelled); os.* on the virtual file system",
+                                            "model: harness baseModel in a main namespace (with or without protocols) importing a types-only namespace"],
+                               desc="the real python.Generate (types, protocols, binary, ndjson, __init__ writers) on a two-namespace model with symbolic generateNDJson and with/without "
+                                    "protocols: completes without panic, and every module imported by a generated __init__.py from its own package was written")),
+    ],
     "C07": [
         (PYG, "c07_py_protocols", dict()),
         (G, "gosym_part", dict(name="c07_cpp_writer", entry="internal/zzverif.C07CppWriter", args_quick=(3, 0), args_thorough=(5, 0), key_fn=c07_key,
@@ -326,6 +334,12 @@ NOTES = ("Every claim is bounded: 'holds' means unsat within the stated bound. E
 NOT_APPLICABLE = {}
 
 CLAIMS = {
+    "C08": dict(text="Bounded symbolic execution (gosym) of the complete real Python generator for a two-namespace model under every generateNDJson / has-protocols combination: "
+                     "no panic, and the generated package is self-consistent (every own-package module an __init__.py imports was written). Panic-freedom of the type-mapping layers "
+                     "on all type shapes is additionally exercised by the C14 part.",
+                note="Only part of C08 is decidable by this technique here: identifier collisions after case conversion go through regexp2 look-behind patterns (no SMT counterpart), "
+                     "and 'generated C++ compiles / Python imports' is not a symbolic question (C++ cannot be compiled in this sandbox); the C++ and MATLAB generators' option handling "
+                     "is not covered yet. See DESIGN section 7."),
     "C07": dict(engine="pysym+gosym",
                 text="(pysym) the generated Python protocols.py for every stream/non-stream pattern of length 1..3 (4 thorough), run on symbolic proxies: one-step inductive simulation "
                      "from an arbitrary _state against the declaration-order automaton for an arbitrary API call (write/read/close/__exit__, iterable obtained/consumed/abandoned). "
